@@ -1,7 +1,8 @@
 (* C05 — at-most-once execution of a signed transaction.  Only property theorems here. *)
 From Coq Require Import ZArith List Bool String.
 Import ListNotations.
-From OL Require Import theories.Replay proofs.ReplayProofs gen.Facts_Wrapper.
+From OL Require Import theories.Replay proofs.ReplayProofs gen.Facts_Wrapper
+  theories.ReplayGuard proofs.ReplayGuardProofs gen.Facts_Deletes.
 Local Open Scope Z_scope.
 
 (* every transaction delivered in a block is in the hash index after the commit (given the
@@ -55,3 +56,43 @@ Proof. exact reencoding_executes_twice. Qed.
 Theorem C05_fact_cache_lookup_first :
   checker_cache_lookup_first = true /\ deliverer_cache_lookup_first = true.
 Proof. vm_compute. auto. Qed.
+
+(* ---------- the second line of defence: the record an executed transaction leaves (theories/ReplayGuard.v) ----------
+   A creating transaction (DOMAIN_CREATE, PROPOSAL_CREATE, ALLEGATION, ETH / ERC20 lock and redeem, BID_CREATE,
+   an OLVM transaction) carries a guard id that is a function of its SIGNED content — every encoding that passes
+   the signature check carries the same id — and executes only when that id is not taken.  For all histories of
+   submissions in any encodings, removals of other records and unrelated operations: it takes effect at most once,
+   and once executed every later submission changes nothing, for as long as nothing removes its record. *)
+Theorem C05_guarded_at_most_once : forall g ops, never_removes g ops = true ->
+  (gcount g (effects (grun ginit ops)) <= 1)%nat.
+Proof. exact guard_at_most_once. Qed.
+Print Assumptions C05_guarded_at_most_once.
+
+Theorem C05_guarded_executed_stays_refused : forall g pre post,
+  never_removes g post = true ->
+  let s := grun (gstep (grun ginit pre) (GSubmit g)) post in
+  gmem g (taken s) = true /\ gstep s (GSubmit g) = s.
+Proof. exact guard_executed_stays_refused. Qed.
+Print Assumptions C05_guarded_executed_stays_refused.
+
+(* the hypothesis is necessary: a removal in between and the same signed content takes effect twice *)
+Theorem C05_guard_removed_refuted : exists g ops,
+  never_removes g ops = false /\ gcount g (effects (grun ginit ops)) = 2%nat.
+Proof. exact guard_removed_executes_twice. Qed.
+
+(* tie to the source (regenerated on every run): every call that deletes a guard record is of an audited class
+   (theories/ReplayGuard.v): a move between state prefixes (the id stays taken under the other prefix), the
+   removal of SUB domains, the replacement of a FAILED Ethereum lock (retry by design), an allegation request
+   after its verdict (its ALLEGATION can then run again in another encoding: listed under the known finding
+   C05.reencoding_replay), an empty or self-destructed OLVM account (nonce 0).  A new deletion site, or an old
+   one reached from another function or on another state prefix, is an open obligation. *)
+Theorem C05_fact_guard_deletions_audited : unaudited_deletes guard_deletes = [].
+Proof. vm_compute. reflexivity. Qed.
+
+Example C05_fact_guard_deletions_nonvacuous :
+  (20 <=? List.length guard_deletes)%nat = true /\
+  (10 <=? count_dclass (fun c => match c with DMove => true | _ => false end) guard_deletes)%nat = true /\
+  count_dclass (fun c => match c with DRetry => true | _ => false end) guard_deletes = 2%nat /\
+  unaudited_deletes [("data/ons.DomainStore.DeleteASubdomain"%string, "action/ons.runRenew"%string, "-"%string)] <> [] /\
+  unaudited_deletes [("data/ethereum.TrackerStore.Delete"%string, "event.Cleanup"%string, "WithPrefixType(ethereum.PrefixPassed)"%string)] <> [].
+Proof. vm_compute. repeat split; discriminate. Qed.
